@@ -557,6 +557,136 @@ func runC12(env *lib.Env, rep *lib.Report) {
 			}
 		}
 	}
+	// leaves grown the way the engine grows them: cells are appended for as long as the node itself says it is not
+	// full (isFull is what stands between an insertion and a split), rows are tombstoned in between; every node on
+	// the way must still be one page
+	for _, size := range []int{400, 399, 200, 0} {
+		for _, policy := range []string{"no deletes", "every row deleted once the next one is in", "the first two deleted", "all but the newest deleted", "every second deleted"} {
+			node := &btreeNode{isLeaf: true, fileOffset: 8192}
+			grown := 0
+			for step := 0; step < 64 && !node.isFull(); step++ {
+				key := uint32(500 + step)
+				pos, _ := node.findCellOffsetByKey(key)
+				if err := node.insertLeafCell(uint32(pos), key, c12Value(size, key)); err != nil {
+					panic(lib.HarnessError{Msg: "insertLeafCell: " + err.Error()})
+				}
+				grown++
+				for i, c := range node.leafCells {
+					switch policy {
+					case "every row deleted once the next one is in", "all but the newest deleted":
+						c.deleted = i < len(node.leafCells)-1
+					case "the first two deleted":
+						c.deleted = i < 2 && len(node.leafCells) > 2
+					case "every second deleted":
+						c.deleted = i%2 == 0 && i < len(node.leafCells)-1
+					}
+				}
+				node.markDirty(uint64(step + 1))
+				r.check(fmt.Sprintf("leaf grown cell by cell while it reports not full: %d cells of %d bytes, %s", grown, size, policy), node, step%3 == 0, true)
+			}
+		}
+	}
+	rep.Bounds["grown leaves"] = "cells of 400/399/200/0 bytes appended while isFull() is false, five tombstone policies, every intermediate node"
+	// pages that reach the file the way the engine sends them there: appended to a store, stamped, and written by
+	// the store's flush - in a store that has flushed before, with stamps above, at and below what earlier flushes
+	// have seen (a new table's root is stamped 0). After every flush a second store opened on the file must read
+	// every page back as the node that was flushed, and nothing may stay dirty.
+	if env.Shard == 0 {
+		stampSets := [][]uint64{{0}, {1}, {0, 7}, {7, 0}, {3, 3}, {9, 2, 0}, {1 << 40, 0, 5}}
+		journeys := 0
+		for _, first := range stampSets {
+			for _, second := range stampSets {
+				for _, third := range [][]uint64{nil, {0}, {4, 0}} {
+					journeys++
+					desc := fmt.Sprintf("flush journey: pages stamped %v flushed, then %v flushed, then %v flushed", first, second, third)
+					r.prog.Set("shape", desc)
+					path := filepath.Join(dir, fmt.Sprintf("journey%d", journeys))
+					os.Remove(path)
+					st, err := newFileStore(path, false)
+					if err != nil {
+						panic(lib.HarnessError{Msg: err.Error()})
+					}
+					st.nextFreeOffset = pageSize
+					all := map[uint64]string{}
+					problem := ""
+					func() {
+						defer func() {
+							if x := recover(); x != nil {
+								problem = fmt.Sprintf("panic: %v", x)
+							}
+						}()
+						k := uint32(1)
+						for round, stamps := range [][]uint64{first, second, third} {
+							for i, lsn := range stamps {
+								var n *btreeNode
+								if (round+i)%2 == 0 {
+									n = &btreeNode{isLeaf: true}
+									for c := 0; c < i+round; c++ { // (the first page of the first round is an empty leaf: a new table's root)
+										n.insertLeafCell(uint32(c), k, c12Value(10*c+1, k))
+										k++
+									}
+								} else {
+									n = c12Internal(i+1, k, 0, 0)
+									n.dirty = false
+									k += 8
+								}
+								if err := st.append(n); err != nil {
+									problem = "append: " + err.Error()
+									return
+								}
+								n.markDirty(lsn)
+								all[n.fileOffset] = c12Logical(n)
+							}
+							if round == 1 && len(first) > 0 {
+								// a page of the first round is changed again with a stamp of its own
+								if old, err := st.fetch(pageSize); err == nil && old.isLeaf {
+									old.insertLeafCell(uint32(len(old.offsets)), 90000+uint32(round), c12Value(33, 9))
+									old.markDirty(second[0])
+									all[old.fileOffset] = c12Logical(old)
+								}
+							}
+							if err := st.flushPages(); err != nil {
+								problem = "flushPages: " + err.Error()
+								return
+							}
+							for _, v := range st.cache.cache {
+								if nd := v.Value.(*cacheEntry).val; nd.isDirty() {
+									problem = fmt.Sprintf("page %d is still dirty after the flush of round %d", nd.fileOffset, round+1)
+									return
+								}
+							}
+							rd, err := newFileStore(path, false)
+							if err != nil {
+								panic(lib.HarnessError{Msg: err.Error()})
+							}
+							for off, want := range all {
+								g, err := rd.fetch(off)
+								if err != nil {
+									problem = fmt.Sprintf("after the flush of round %d: fetch(%d): %v", round+1, off, err)
+									break
+								}
+								if got := c12Logical(g); got != want {
+									problem = fmt.Sprintf("after the flush of round %d page %d reads back as %s, the node flushed was %s", round+1, off, got, want)
+									break
+								}
+							}
+							rd.file.Close()
+							if problem != "" {
+								return
+							}
+						}
+					}()
+					st.file.Close()
+					os.Remove(path)
+					rep.AddCase(true, lib.HashString(desc), lib.HashString(problem))
+					if problem != "" {
+						rep.AddFailure(&lib.Failure{Kind: "flush-journey", Detail: desc + ": " + problem, Trace: []string{desc}})
+					}
+				}
+			}
+		}
+		rep.Bounds["flush journeys"] = fmt.Sprintf("%d: three rounds of appended pages with stamps above / at / below those of earlier flushes (0 included), a page of the first round changed again; after each flush every page is read back through a second store", journeys)
+	}
 	// a refused update (value over the limit) must leave the page exactly as it was
 	for n := 1; n <= 4; n++ {
 		for _, from := range []int{0, 2, 100, 400} {
